@@ -144,6 +144,62 @@ def run(ctx: Any, prog: Program) -> None:
     ctx.rule('C11.L8', 'entity lump: every str written inside quotes is escaped; reader decodes escapes', floor=3)
     ctx.rule('C11.L9', 'physics-collide terminator record agrees between writer and reader', floor=2)
 
+    # ---- L18: a record index taken from the length of a chunk list ------------------------------------------------------------------
+    # Writers collect `struct.pack(...)` chunks in a list and join them.  When one record is appended as several chunks, or as a number of
+    # chunks that depends on the layout (`if not self.is_vitamin: append(view sizes)`), `len(chunks)` / `len(chunks) // k` is the index of
+    # the next record only if every record contributes exactly k chunks in every layout.
+    ctx.rule('C11.L18', 'a record index derived from the length of a list of packed chunks agrees with the number of chunks appended per record in every layout', floor=10)
+
+    def chunk_index_hazards(fn_: ast.AST) -> List[Tuple[ast.AST, str]]:
+        out_: List[Tuple[ast.AST, str]] = []
+        packed_lists = {dotted(c.func.value) for c in ast.walk(fn_) if isinstance(c, ast.Call) and isinstance(c.func, ast.Attribute) and c.func.attr == 'append' and c.args
+                        and isinstance(c.args[0], ast.Call) and (dotted(c.args[0].func) or '').endswith('pack') and isinstance(c.func.value, ast.Name)}
+        for a_ in ast.walk(fn_):
+            if not isinstance(a_, ast.Assign):
+                continue
+            v_ = a_.value
+            k_ = 1
+            if isinstance(v_, ast.BinOp) and isinstance(v_.op, (ast.FloorDiv, ast.Div)) and isinstance(v_.right, ast.Constant) and isinstance(v_.right.value, int):
+                k_, v_ = v_.right.value, v_.left
+            if not (isinstance(v_, ast.Call) and dotted(v_.func) == 'len' and len(v_.args) == 1 and dotted(v_.args[0]) in packed_lists):
+                continue
+            lst_ = dotted(v_.args[0])
+            loops_ = [l_ for l_ in ast.walk(fn_) if isinstance(l_, (ast.For, ast.While)) and any(x is a_ for x in ast.walk(l_))]
+            if not loops_:
+                continue
+            loop_ = loops_[-1]
+            uncond = cond = 0
+            for c in ast.walk(loop_):
+                if isinstance(c, ast.Call) and isinstance(c.func, ast.Attribute) and c.func.attr == 'append' and dotted(c.func.value) == lst_:
+                    # conditional relative to the statement list that holds the index assignment
+                    holder = bsp.parents.get(a_)
+                    p_ = bsp.parents.get(c)
+                    under_if = False
+                    while p_ is not None and p_ is not holder and p_ is not loop_:
+                        if isinstance(p_, ast.If):
+                            under_if = True
+                        p_ = bsp.parents.get(p_)
+                    if under_if:
+                        cond += 1
+                    else:
+                        uncond += 1
+            if cond:
+                out_.append((a_, f'`{U(a_)[:60]}`: a record adds {uncond} chunk(s) to `{lst_}` plus {cond} more only in some layouts, so the list length divided by {k_} is not the record number in all of them'))
+            elif uncond != k_:
+                out_.append((a_, f'`{U(a_)[:60]}`: every record adds {uncond} chunk(s) to `{lst_}` but the index divides the length by {k_}'))
+        return out_
+    probe18 = ast.parse("def w(self, items):\n    out = []\n    for it in items:\n        ind = len(out) // 2\n        out.append(struct.pack('<i', it))\n        if not self.is_vitamin:\n            out.append(struct.pack('<i', 0))\n    return out").body[0]
+    for n_ in ast.walk(probe18):
+        for ch_ in ast.iter_child_nodes(n_):
+            bsp.parents.setdefault(ch_, n_)
+    if len(chunk_index_hazards(probe18)) != 1:
+        raise AnalysisError('L18: the detector does not fire on its built-in positive example')
+    for wname, wfn in bsp.methods('BSP').items():
+        if not wname.startswith('_lmp_write'):
+            continue
+        hz = chunk_index_hazards(wfn)
+        ctx.check('C11.L18', not hz, bsp, hz[0][0] if hz else wfn, f'BSP.{wname}: ' + (hz[0][1] if hz else 'no record index is derived from a chunk-list length') +
+                  ('; references written with that index point at the wrong record after a rebuild' if hz else ''), func=f'BSP.{wname}', text=f'{wname}: record indexes')
     # ---- L1 / L2 -------------------------------------------------------------------------------------------
     for v in views:
         if v in NO_WIRE:
@@ -532,6 +588,7 @@ def run(ctx: Any, prog: Program) -> None:
 
 
 MUTANTS = [
+    {'id': 'texdata_index_from_list_length', 'file': 'bsp.py', 'find': "                ind = texdata_ind[tdat] = next_ind\n                next_ind += 1\n", 'replace': "                ind = texdata_ind[tdat] = len(texdata_list) // 2\n", 'expect': 'C11.L18'},
     {'id': 'ents_output_if_four_or_more_commas', 'file': 'bsp.py', 'find': "            elif value.count(',') == 4:", 'replace': "            elif value.count(',') >= 4:", 'expect': 'C11.L16'},
     {'id': 'surfedge_slot0_reserved_conditionally', 'file': 'bsp.py', 'find': "        edges: list[Edge] = [Edge(first_vert, first_vert)]\n", 'replace': "        edges: list[Edge] = []\n        if surf_edges and isinstance(surf_edges[0], RevEdge):\n            edges.append(Edge(first_vert, first_vert))\n", 'expect': 'C11.L17'},
     {'id': 'bmodel_phys_skipped_without_solids', 'file': 'bsp.py', 'find': "            if model.phys_keyvalues is not None:\n                kvs = model.phys_keyvalues.serialise().encode('ascii') + b'\\x00'\n            else:\n                kvs = b'\\x00'\n                if not model._phys_solids:\n                    continue  # No physics info.", 'replace': "            if not model._phys_solids:\n                continue\n            if model.phys_keyvalues is not None:\n                kvs = model.phys_keyvalues.serialise().encode('ascii') + b'\\x00'\n            else:\n                kvs = b'\\x00'", 'expect': 'C11.L14'},
